@@ -528,10 +528,25 @@ def check_dropsets(rep, fl):
         for si, st in enumerate(ti.blocks[bi]["stmts"]):
             if st["k"] != "assign":
                 continue
-            e = norm(ti.rvalue_expr(st["rv"], True))
-            if not (e[0] == "agg" and e[2].endswith("Result::Ok") and e[3] and e[3][0][0] == "const" and e[3][0][2] == "bool"):
+            e = norm(ti.rvalue_expr(st["rv"], False))
+            if not (e[0] == "agg" and e[2].endswith("Result::Ok") and e[3]):
+                continue
+            payload = e[3][0]
+            if not ((payload[0] == "const" and payload[2] == "bool") or (payload[0] in ("tmp", "var") and ti.locals[payload[1] if payload[0] == "tmp" else ti.name_local.get(payload[1], 0)]["ty"] == "bool")):
                 continue
             for s in at2.get((bi, si), set()):
+                if payload[0] == "const":
+                    e = ("agg", e[1], e[2], (payload,), e[4])
+                else:
+                    # a flag computed earlier on this path (e.g. the result of a helper): its value is a path fact
+                    v_ = s.value(payload)
+                    if v_ is None:
+                        ee = norm(ti.expand(payload))
+                        if ee[0] == "const":
+                            v_ = bool(ee[1])
+                    if v_ is None:
+                        continue
+                    e = ("agg", e[1], e[2], (("const", 1 if v_ else 0, "bool"),), e[4])
                 d = dict(s.user or ())
                 upd = updness(expand_state(ti, s, hist=True))
                 if any(k_.startswith("tick ") or k_.endswith("!badargs") for k_ in d):
